@@ -11,6 +11,8 @@ Decided:
      an unrepresentable window start (huge period) counts every logged request instead of denying forever;
   R5 period grammar: accepted units = multiplier table = {s:1, m:60, h:3600, d:86400, w:604800}; parts are summed with
      checked arithmetic, an overflow or trailing input is an error (whole-string match).
+  Evaluation-first: R3 for hook groups (cycles of length 1-3, repeated groups; props/hook_table.py — the structural visited-set rule
+  stays armed when its shape is present), R4 zero numbers / windows before the clock's origin (props/rate_model.py).
 """
 import re
 
@@ -25,13 +27,15 @@ from .guards import nonzero_limit_guard
 LEVEL = "other"
 TECHNIQUE = ("type-level fact extraction (serde field visitors), panic-source enumeration over the load path's call graph, "
              "call-graph SCC + dominating visited-set rule for recursion, guard-dominance rules for configured divisors, "
-             "table extraction of the period grammar")
+             "table extraction of the period grammar"
+             '; evaluation of hook-name resolution on cyclic sample configurations and of the limiter on degenerate limits')
 LEVEL_TEXT = ("Decides for all configurations at once the crash classes named by the property: unknown keys are rejected by "
               "construction, no panic-capable operation on the load path is left unexplained, recursion is cut by visited "
               "sets, configured numbers cannot reach a division or an admission bound as zero, period arithmetic is checked "
               "and its unit table equals the manual's. Totality of the TOML parser/serde and memory exhaustion are trusted.")
 LEVEL_NOTE = ("Not decided: toml/serde totality, memory exhaustion, filesystem errors. Trusted: rustc MIR, extractor, frozen "
-              "panicking-API list and allow-table reasons, nom combinators.")
+              "panicking-API list and allow-table reasons, nom combinators."
+              ' R3/R4 by evaluation are (sample-based: evaluation on the listed sample family is not a proof for all inputs; the structural rule is the fallback when the interpreter cannot run the code)')
 
 NEW = "acmed::main_event_loop::MainEventLoop::new"
 UNITS = {"s": 1, "m": 60, "h": 3600, "d": 86400, "w": 604800}
